@@ -1,0 +1,103 @@
+/*
+ * Verification hooks.  Everything in this header is inert unless the library
+ * is compiled with -DLIBERASURECODE_VERIF *and* a callback has been installed
+ * in liberasurecode_verif_yield (the definition of that pointer lives in the
+ * verification harness, not in this tree).  With the guard off every macro
+ * below expands to nothing.
+ *
+ * A controlled-scheduling harness runs its threads one at a time and lets
+ * them hand over control only at the points marked with LIBEC_VERIF_YIELD;
+ * lock acquisitions become try-lock + yield so that a thread that would
+ * block hands over instead of deadlocking the harness.
+ */
+#ifndef _ERASURECODE_VERIF_H_
+#define _ERASURECODE_VERIF_H_
+
+#ifdef LIBERASURECODE_VERIF
+
+#include <errno.h>
+#include <pthread.h>
+
+enum {
+    LIBEC_VP_LOOKUP_STEP = 1,
+    LIBEC_VP_ALLOC_DESC,
+    LIBEC_VP_REG_INSERTED,
+    LIBEC_VP_REG_DESC_SET,
+    LIBEC_VP_CREATE_PRE_REGISTER,
+    LIBEC_VP_DESTROY_POST_LOOKUP,
+    LIBEC_VP_DESTROY_POST_EXIT,
+    LIBEC_VP_UNREG_DONE,
+    LIBEC_VP_GF_INIT_COUNTED,
+    LIBEC_VP_GF_INIT_ALLOCATED,
+    LIBEC_VP_GF_INIT_FILLED,
+    LIBEC_VP_GF_DEINIT_COUNTED,
+    LIBEC_VP_LOCK_TRY,
+    LIBEC_VP_BLOCKED,
+    LIBEC_VP_UNLOCK,
+};
+
+extern void (*liberasurecode_verif_yield)(int point);
+
+#define LIBEC_VERIF_YIELD(p) \
+    do { if (liberasurecode_verif_yield) liberasurecode_verif_yield(p); } while (0)
+
+static inline int libec_verif_rdlock(pthread_rwlock_t *l)
+{
+    if (!liberasurecode_verif_yield)
+        return pthread_rwlock_rdlock(l);
+    liberasurecode_verif_yield(LIBEC_VP_LOCK_TRY);
+    for (;;) {
+        int rc = pthread_rwlock_tryrdlock(l);
+        if (rc != EBUSY)
+            return rc;
+        liberasurecode_verif_yield(LIBEC_VP_BLOCKED);
+    }
+}
+
+static inline int libec_verif_wrlock(pthread_rwlock_t *l)
+{
+    if (!liberasurecode_verif_yield)
+        return pthread_rwlock_wrlock(l);
+    liberasurecode_verif_yield(LIBEC_VP_LOCK_TRY);
+    for (;;) {
+        int rc = pthread_rwlock_trywrlock(l);
+        if (rc != EBUSY)
+            return rc;
+        liberasurecode_verif_yield(LIBEC_VP_BLOCKED);
+    }
+}
+
+static inline int libec_verif_rwunlock(pthread_rwlock_t *l)
+{
+    int rc = pthread_rwlock_unlock(l);
+    LIBEC_VERIF_YIELD(LIBEC_VP_UNLOCK);
+    return rc;
+}
+
+static inline int libec_verif_mutex_lock(pthread_mutex_t *m)
+{
+    if (!liberasurecode_verif_yield)
+        return pthread_mutex_lock(m);
+    liberasurecode_verif_yield(LIBEC_VP_LOCK_TRY);
+    for (;;) {
+        int rc = pthread_mutex_trylock(m);
+        if (rc != EBUSY)
+            return rc;
+        liberasurecode_verif_yield(LIBEC_VP_BLOCKED);
+    }
+}
+
+static inline int libec_verif_mutex_unlock(pthread_mutex_t *m)
+{
+    int rc = pthread_mutex_unlock(m);
+    LIBEC_VERIF_YIELD(LIBEC_VP_UNLOCK);
+    return rc;
+}
+
+#else /* !LIBERASURECODE_VERIF */
+
+#define LIBEC_VERIF_YIELD(p) do { } while (0)
+
+#endif /* LIBERASURECODE_VERIF */
+
+#endif /* _ERASURECODE_VERIF_H_ */
